@@ -272,6 +272,13 @@ def check_property(prop, tier="quick", seed=0, jobs=None, write_baseline=False, 
 
     loader.import_repo()
     known = load_known()
+    # facade conformance (evidence for the trusted base): models vs the installed libraries on seeded concrete inputs
+    try:
+        from pyvc import conformance
+
+        conf = conformance.run(seed=seed)
+    except Exception as e:  # pragma: no cover
+        conf = {"comparisons": 0, "agreed": 0, "disagreements": [f"harness crashed: {type(e).__name__}: {e}"]}
     # Phase A (bounded stand-in): native cross-check of the contracts on random inputs, run and FINISHED
     # before the facade is installed -- never two process pools alive at once (fork + threads).
     native = {"runs": 0, "failures": []}
@@ -336,6 +343,8 @@ def check_property(prop, tier="quick", seed=0, jobs=None, write_baseline=False, 
 
     baseline = _load_baseline(prop)
     violations, known_hits, undecided, failures = [], [], [], list(native_failures_chk)
+    if conf["disagreements"]:
+        failures.append({"contract": "pyvc.conformance", "cfg": {}, "reason": "facade model disagrees with the installed library: " + "; ".join(conf["disagreements"][:3])})
     n_ob = n_dis = 0
     backend = {}
     by_kind = {}
@@ -497,6 +506,8 @@ def check_property(prop, tier="quick", seed=0, jobs=None, write_baseline=False, 
             "checker_failures": [{k: f.get(k) for k in ("contract", "cfg", "reason", "tb")} for f in failures][:20],
             "known_findings_hit": sorted(known_lines),
             "bounded_checks": {
+                "facade_conformance": {"label": "differential test of the facade models against the installed NumPy/SciPy/scikit-learn on seeded concrete inputs (evidence for the trusted base, not proof)",
+                                       "comparisons": conf["comparisons"], "agreed": conf["agreed"], "disagreements": conf["disagreements"]},
                 "native_crosscheck": {
                     "label": "BOUNDED (not counted as proved): the same contracts evaluated on the unpatched float code for random inputs",
                     "runs": native["runs"],
